@@ -34,7 +34,11 @@ def run(rng, tier, res=None):
     for case in range(ncases):
         n = rng.choice([4, 5, 6, 8, 10, 14]); d = rng.choice([1, 2, 3]); nq = rng.choice([2, 4, 6])
         K = rng.choice([2, 2, 3])
-        X = np.array([[rng.gauss(0, 1) * rng.choice([1, 1, 10]) for _ in range(d)] for _ in range(n)])
+        if rng.random() < 0.35:
+            # zero-centred integer features: mirrored coordinates (x_k == -y_k), zeros, exact ties
+            X = np.array([[float(rng.randint(-2, 2)) for _ in range(d)] for _ in range(n)])
+        else:
+            X = np.array([[rng.gauss(0, 1) * rng.choice([1, 1, 10]) for _ in range(d)] for _ in range(n)])
         Y = np.array([i % K for i in range(n)], dtype=int); rng.shuffle(Y)
         Q = np.array([[rng.gauss(0, 1.5) for _ in range(d)] for _ in range(nq)])
         if rng.random() < 0.3:
@@ -67,12 +71,36 @@ def run(rng, tier, res=None):
             res.hit("perm_skipped_ties")
         # ---------- the five-metric family ----------
         mats = {}
-        for m in FAMILY:
-            f = dist.DISTANCES[m]
-            mats[m] = [float(f(X[a], X[b])) for a in range(n) for b in range(n) if a != b] + \
-                      [float(f(X[t], Q[i])) for i in range(nq) for t in range(n)]
+        try:
+            for m in FAMILY:
+                f = dist.DISTANCES[m]
+                mats[m] = [float(f(X[a], X[b])) for a in range(n) for b in range(n) if a != b] + \
+                          [float(f(X[t], Q[i])) for i in range(nq) for t in range(n)]
+        except Exception as ex:
+            viol([f"{m} raised {type(ex).__name__} where euclidean is defined: not a transform of the Euclidean distance"], meta)
+            continue
         ot = {m: order_type(v) for m, v in mats.items()}
-        if any(ot[m] != ot["euclidean"] for m in FAMILY):
+        # a strictly increasing transform may MERGE values in binary64 (weak monotonicity) but can never INVERT two
+        inverted = []
+        E = mats["euclidean"]
+        for m in FAMILY[1:]:
+            V = mats[m]
+            idx_sorted = sorted(range(len(E)), key=lambda t: E[t])
+            for a_, b_ in zip(idx_sorted, idx_sorted[1:]):
+                if E[a_] < E[b_] and V[a_] > V[b_]:
+                    inverted.append((m, E[a_], E[b_], V[a_], V[b_]))
+                    break
+            if not inverted:
+                # non-adjacent inversions
+                mx = float("-inf")
+                for t in idx_sorted:
+                    if V[t] < mx and any(E[u] < E[t] and V[u] > V[t] for u in idx_sorted):
+                        inverted.append((m, "non-adjacent"))
+                        break
+                    mx = max(mx, V[t])
+        if inverted:
+            viol([f"{inverted[0][0]} is not a monotone transform of euclidean on this data: {inverted[0][1:]}"], meta)
+        elif any(ot[m] != ot["euclidean"] for m in FAMILY):
             res.hit("family_skipped_rounding_merges_values")
         else:
             outs = {}
